@@ -1,7 +1,81 @@
 import ComposeVerif.Ops.Common
-/-! line-protocol ops for C12 (filled in by the property's owner) -/
+import ComposeVerif.Model.Paths
+import ComposeVerif.Spec.Paths
+/-! line-protocol ops for C12: `c12.join`, `c12.winabs`, `c12.remote`, `c12.resolve`, `c12.spec` -/
+open Lean
 namespace CV.Ops.C12
+open CV.Paths
 
-def handlers : List (String × Handler) := []
+def optStr (j : Json) (k : String) : Option Str :=
+  match j.getObjVal? k with
+  | .ok (.str s) => some s.toList
+  | _ => none
+
+/-- `home` on the wire: a string; "" = `$HOME` unset (UserHomeDir fails) -/
+def homeOf (j : Json) : Option Str :=
+  match optStr j "home" with
+  | some [] => none
+  | o => o
+
+def cfgOf (j : Json) : Cfg :=
+  let pres := (getStrList j "remotes").map String.toList
+  { wd := (getStr j "wd").toList
+    home := homeOf j
+    remote := fun s => pres.any (fun p => p.isPrefixOf s) }
+
+/-- `filepath.Join(a, b)` and `filepath.Clean(a)` -/
+def joinOp : Handler := fun args =>
+  let a := (getStr args "a").toList
+  let b := (getStr args "b").toList
+  Json.mkObj [("join", str (join a b)), ("clean", str (clean a)), ("abs", Json.bool (isAbs a))]
+
+def winabsOp : Handler := fun args =>
+  let p := (getStr args "p").toList
+  match volumeNameLen? p, isWindowsAbs? p with
+  | some n, some b => Json.mkObj [("vol", Json.num n), ("abs", Json.bool b), ("spec", Json.bool (CV.Paths.Spec.winAbs p))]
+  | _, _ => Json.mkObj [("panic", "isWindowsAbs")]
+
+def remoteOp : Handler := fun args =>
+  let p := (getStr args "p").toList
+  Json.mkObj [("remote", Json.bool (isRemoteContext p)), ("expand", str (expandUser (homeOf args) p))]
+
+def outJson : Out Val → Json
+  | .ok v => Json.mkObj [("ok", v.toJson)]
+  | .err e => Json.mkObj [("err", e)]
+  | .panic s => Json.mkObj [("panic", s)]
+
+def dedup (l : List String) : List String := l.foldl (fun acc s => if acc.contains s then acc else acc ++ [s]) []
+
+/-- `paths.ResolveRelativePaths(tree, wd, remotes)`; `fails` = every failure some map order can report -/
+def resolveOp : Handler := fun args =>
+  match Val.ofJson (getObj args "tree") with
+  | .error e => Json.mkObj [("bad", e)]
+  | .ok v =>
+    let cfg := cfgOf args
+    Json.mkObj [("out", outJson (resolve cfg v)),
+                ("fails", Json.arr ((dedup (fails CV.Gen.resolvers cfg TPath.root v)).map Json.str).toArray)]
+
+/-- the specification, decided on one attribute value: what the property says the resolved value is -/
+def specOp : Handler := fun args =>
+  let cfg := cfgOf args
+  let kind := getStr args "kind"
+  let s := (getStr args "s").toList
+  match CV.Paths.Spec.kindOf kind with
+  | none => Json.mkObj [("bad", "kind")]
+  | some k =>
+    Json.mkObj [("want", match CV.Paths.Spec.expected? k cfg.wd cfg.home cfg.remote s with
+                          | some r => str r
+                          | none => Json.null),
+                ("class", CV.Paths.Spec.shapeName (CV.Paths.Spec.classify k cfg.remote s))]
+
+/-- a batch of spec questions: `items = [{kind, wd, home, remotes, s}, …]` -/
+def specsOp : Handler := fun args =>
+  match args.getObjVal? "items" with
+  | .ok (.arr a) => Json.arr (a.map specOp)
+  | _ => Json.arr #[]
+
+def handlers : List (String × Handler) :=
+  [("c12.join", joinOp), ("c12.winabs", winabsOp), ("c12.remote", remoteOp),
+   ("c12.resolve", resolveOp), ("c12.spec", specOp), ("c12.specs", specsOp)]
 
 end CV.Ops.C12
